@@ -190,12 +190,15 @@ def run(ctx):
     del recs
     # ---- output chain: spec -> code
     items = []
-    for part in ("a", "b", "c", "d") + (("e", "f") if ctx.thorough else ()):
+    sampled = False
+    for part in ("a", "b", "c", "d") + (("e", "f", "g") if ctx.thorough else ()):
         recs = ctx.export("Output", "Output_%s_export_%s.cfg" % (tag, part), min_records=50)
-        if part == "b":
-            r = [x for x in recs if x["sc"]["grouped"]][len(recs) // 5]
+        grouped = [x for x in recs if x["sc"]["grouped"]]
+        if grouped and not sampled:
+            r = grouped[len(grouped) // 2]
             ctx.sample({"exported_history": {"sc": r["sc"], "set": r["set"],
                                              "touched_before_each_run": [x["touched"] for x in r["h"]]}})
+            sampled = True
         items.extend(items_from_export(recs))
     ctx.extra["exported_histories"] = len(items)
     ol.check_histories(ctx, items, "export")
